@@ -431,3 +431,174 @@ Proof.
   - (* already last *)
     cbn. apply restack_refl. exact HIv.
 Qed.
+
+(* the search for w's slot among the children of p *)
+Lemma find_child_w : forall fuel p cp w l1 l3 h0,
+  findw h0 p = Some cp -> chain h0 (w_first cp) (l1 ++ w :: l3) ->
+  match find_child fuel p w h0 with
+  | Ok s h1 => h1 = h0 /\ slot_at p l1 s
+  | Fault _ _ => False
+  | NoFuel => True
+  end.
+Proof.
+  intros fuel p cp w l1 l3 h0 Hp Hc. unfold find_child.
+  pose proof (find_child_from_spec fuel p cp w [] (l1 ++ w :: l3) (SFirst p) h0) as Hfc.
+  assert (Hpre : findw h0 p = Some cp /\ chain h0 (w_first cp) ([] ++ l1 ++ w :: l3) /\ slot_at p [] (SFirst p) /\ ~ In w []).
+  { split; [exact Hp|]. split; [exact Hc|]. split; [left; auto|]. intros []. }
+  specialize (Hfc Hpre).
+  destruct (find_child_from fuel (SFirst p) w h0) as [s h1| |]; auto.
+  destruct Hfc as [Eh [l1' [l2' [Heq [Hs [Hn1 Hl2]]]]]]. split; auto. cbn in Heq.
+  destruct (chain_prefix_notin h0 _ l1 w l3 Hc) as [Hnw1 Hnw3].
+  assert (El : l1' = l1).
+  { destruct Hl2 as [E2|[l4 E2]]; subst l2'.
+    - exfalso. rewrite app_nil_r in Heq. apply Hn1. rewrite <- Heq. apply in_or_app. right. left. reflexivity.
+    - assert (Hnd : NoDup (l1 ++ w :: l3)) by (eapply chain_NoDup; eauto).
+      clear - Heq Hn1 Hnw1 Hnd. revert l1' Heq Hn1. induction l1 as [|x l1 IH]; intros l1' Heq Hn1; cbn in *.
+      + destruct l1' as [|y l1']; cbn in Heq; inversion Heq; subst; auto. exfalso. apply Hn1. left. reflexivity.
+      + destruct l1' as [|y l1']; cbn in Heq; inversion Heq; subst.
+        * exfalso. apply Hnw1. left. reflexivity.
+        * inversion Hnd; subst. f_equal. apply (IH (fun H => Hnw1 (or_intror H)) H3 l1' H1 (fun H => Hn1 (or_intror H))). }
+  subst l1'. exact Hs.
+Qed.
+
+(* _do_hierarchy_remove alone: w is spliced out and keeps its parent *)
+Lemma hremove_ptr_spec : forall D fuel p w cw cp l1 l3 qh h0,
+  hinv D (vq h0 qh) -> findw h0 w = Some cw -> findw h0 p = Some cp -> p <> w ->
+  chain h0 (w_first cp) (l1 ++ w :: l3) ->
+  (forall k, In k (l1 ++ w :: l3) <-> exists ck, findw h0 k = Some ck /\ w_parent ck = Some p) ->
+  hoare (fun h => h = h0) (hremove fuel p w)
+        (fun _ h2 => relinked p (l1 ++ w :: l3) h0 h2 /\
+                     exists cp2, findw h2 p = Some cp2 /\ chain h2 (w_first cp2) (l1 ++ l3) /\
+                                 findw h2 w = Some (set_next cw None)).
+Proof.
+  intros D fuel p w cw cp l1 l3 qh h0 HIv Hw Hp Hpw Hc Hl h E. subst h.
+  unfold hremove. unfold bind at 1.
+  pose proof (find_child_w fuel p cp w l1 l3 h0 Hp Hc) as Hfc.
+  destruct (find_child fuel p w h0) as [s h1| |]; [|contradiction|exact I].
+  destruct Hfc as [Eh Hs]. subst h1.
+  destruct (slot_at_val h0 p cp l1 (w :: l3) s Hp Hc Hs) as [v [Hv Hcv]].
+  inversion Hcv as [|w' cw' l' Hfw Hc3]; subst. rewrite Hw in Hfw. inversion Hfw; subst cw'.
+  unfold bind at 1. rewrite (read_slot_run h0 s (Some w) Hv).
+  unfold bind at 1. cbn [deref ret]. unfold bind at 1. rewrite (getw_run h0 w cw Hw).
+  unfold bind at 1. rewrite (write_slot_run h0 s (w_next cw) (Some w) Hv).
+  set (h1 := slot_upd h0 s (w_next cw)).
+  destruct (chain_seg_app h0 l1 _ _ Hc) as [e1 [Hseg1 Hcw]].
+  assert (Hnd : NoDup (l1 ++ w :: l3)) by (eapply chain_NoDup; eauto).
+  assert (Hnd1 : NoDup l1) by (eapply nodup_app_l; exact Hnd).
+  destruct (chain_prefix_notin h0 _ l1 w l3 Hc) as [Hnw1 Hnw3].
+  assert (Hpl : ~ In p (l1 ++ w :: l3)).
+  { intro Hin. apply Hl in Hin. destruct Hin as [ck [G1 G2]]. pose proof (hi_parent_lt D (vq h0 qh) HIv p ck p G1 G2). lia. }
+  assert (Hpl1 : ~ In p l1) by (intro Hin; apply Hpl; apply in_or_app; left; exact Hin).
+  destruct (seg_slot_upd h0 p cp l1 s e1 (w_next cw) Hp Hseg1 Hs Hnd1 Hpl1) as [cp1 [Hp1 Hs1]]. fold h1 in Hp1, Hs1.
+  assert (Hown : slot_owner s <> w /\ (forall z, s = SNext z -> ~ In z l3)).
+  { destruct Hs as [[E1 E2]|[l0 [z [E1 E2]]]]; subst s; cbn.
+    - split; [congruence|intros z Ez; discriminate].
+    - assert (Hinz : In z l1) by (subst l1; apply in_or_app; right; left; reflexivity).
+      split; [intro Ez; subst z; contradiction|].
+      intros z' Ez'. inversion Ez'; subst z'. intro Hin3.
+      apply (nodup_app_disj l1 (w :: l3) z Hnd Hinz). right. exact Hin3. }
+  destruct Hown as [Hown_w Hown3].
+  assert (Hc31 : chain h1 (w_next cw) l3) by (apply chain_slot_upd_notin; auto).
+  assert (Hw1 : findw h1 w = Some cw) by (unfold h1; rewrite slot_upd_other; auto).
+  rewrite (upd_run h1 w _ cw Hw1).
+  set (h2 := upd_cell h1 w (fun c => set_next c None)).
+  split.
+  - eapply relinked_trans; [apply (relinked_slot_upd p _ l1 s h0 (w_next cw) Hs); intros x Hx; apply in_or_app; left; exact Hx|].
+    apply relinked_set_next. apply in_or_app. right. left. reflexivity.
+  - exists cp1. split; [unfold h2; rewrite findw_upd_cell_other; auto|]. split.
+    + apply chain_upd_next_notin.
+      * eapply seg_chain_app; eauto.
+      * intro Hin. apply in_app_or in Hin. destruct Hin; contradiction.
+    + unfold h2. rewrite findw_upd_cell_same. rewrite Hw1. reflexivity.
+Qed.
+
+Lemma raise_front_spec : forall D fuel p w cw qh h0,
+  hinv D (vq h0 qh) -> findw h0 w = Some cw -> w_parent cw = Some p ->
+  hoare (fun h => h = h0) (hremove fuel p w ;;; insert_first p w) (fun _ h' => restack_post D qh h0 h').
+Proof.
+  intros D fuel p w cw qh h0 HIv Hw Hwp h E. subst h.
+  destruct (restack_setting D qh h0 w cw p HIv Hw Hwp) as [cp [l1 [l3 [Hp [Hc [Hl Hpw]]]]]].
+  unfold bind at 1.
+  pose proof (hremove_ptr_spec D fuel p w cw cp l1 l3 qh h0 HIv Hw Hp Hpw Hc Hl h0 eq_refl) as Hrm.
+  destruct (hremove fuel p w h0) as [u h2| |]; [|contradiction|exact I].
+  destruct Hrm as [RL2 [cp2 [Hp2 [Hc2 Hw2]]]].
+  destruct (chain_prefix_notin h0 _ l1 w l3 Hc) as [Hnw1 Hnw3].
+  unfold insert_first. unfold bind at 1. rewrite (getw_run h2 p cp2 Hp2).
+  unfold bind at 1. rewrite (upd_run h2 w _ _ Hw2).
+  set (h3 := upd_cell h2 w (fun c => set_next c (w_first cp2))).
+  assert (Hp3 : findw h3 p = Some cp2) by (unfold h3; rewrite findw_upd_cell_other; auto).
+  rewrite (upd_run h3 p _ cp2 Hp3).
+  set (h4 := upd_cell h3 p (fun c => set_first c (Some w))).
+  assert (Hw3 : findw h3 w = Some (set_next (set_next cw None) (w_first cp2))).
+  { unfold h3. rewrite findw_upd_cell_same. rewrite Hw2. reflexivity. }
+  assert (Hc3 : chain h3 (w_first cp2) (l1 ++ l3)).
+  { apply chain_upd_next_notin; auto. intro Hin. apply in_app_or in Hin. destruct Hin; contradiction. }
+  assert (Hp4 : findw h4 p = Some (set_first cp2 (Some w))) by (unfold h4; rewrite findw_upd_cell_same; rewrite Hp3; reflexivity).
+  assert (Hc4 : chain h4 (Some w) (w :: l1 ++ l3)).
+  { econstructor.
+    - unfold h4. rewrite findw_upd_cell_other; auto. exact Hw3.
+    - cbn. apply chain_upd_first. exact Hc3. }
+  eapply (restack_finish D qh p (l1 ++ w :: l3) (w :: l1 ++ l3) h0 h4 cp); eauto.
+  - eapply relinked_trans; [exact RL2|].
+    eapply relinked_trans; [apply relinked_set_next; apply in_or_app; right; left; reflexivity|apply relinked_set_first].
+  - intro k. split; intro Hin.
+    + destruct Hin as [Ek|Hin]; [subst k; apply in_or_app; right; left; reflexivity|].
+      apply in_app_or in Hin. apply in_or_app. destruct Hin; [left|right; right]; auto.
+    + apply in_app_or in Hin. destruct Hin as [Hin|[Ek|Hin]]; [right; apply in_or_app; left; auto|left; auto|right; apply in_or_app; right; auto].
+Qed.
+
+Lemma lower_back_spec : forall D fuel p w cw qh h0,
+  hinv D (vq h0 qh) -> findw h0 w = Some cw -> w_parent cw = Some p ->
+  hoare (fun h => h = h0) (hremove fuel p w ;;; insert_last fuel p w) (fun _ h' => restack_post D qh h0 h').
+Proof.
+  intros D fuel p w cw qh h0 HIv Hw Hwp h E. subst h.
+  destruct (restack_setting D qh h0 w cw p HIv Hw Hwp) as [cp [l1 [l3 [Hp [Hc [Hl Hpw]]]]]].
+  unfold bind at 1.
+  pose proof (hremove_ptr_spec D fuel p w cw cp l1 l3 qh h0 HIv Hw Hp Hpw Hc Hl h0 eq_refl) as Hrm.
+  destruct (hremove fuel p w h0) as [u h2| |]; [|contradiction|exact I].
+  destruct Hrm as [RL2 [cp2 [Hp2 [Hc2 Hw2]]]].
+  destruct (chain_prefix_notin h0 _ l1 w l3 Hc) as [Hnw1 Hnw3].
+  assert (Hnw : ~ In w (l1 ++ l3)) by (intro Hin; apply in_app_or in Hin; destruct Hin; contradiction).
+  assert (Hsub : forall x, In x (l1 ++ l3) -> In x (l1 ++ w :: l3)).
+  { intros x Hx. apply in_app_or in Hx. apply in_or_app. destruct Hx; [left|right; right]; auto. }
+  assert (Hpl : ~ In p (l1 ++ l3)).
+  { intro Hin. apply Hsub in Hin. apply Hl in Hin. destruct Hin as [ck [G1 G2]].
+    pose proof (hi_parent_lt D (vq h0 qh) HIv p ck p G1 G2). lia. }
+  unfold insert_last. unfold bind at 1.
+  pose proof (last_slot_spec fuel p cp2 [] (l1 ++ l3) (SFirst p) h2) as Hls.
+  assert (Hpre : findw h2 p = Some cp2 /\ chain h2 (w_first cp2) ([] ++ l1 ++ l3) /\ slot_at p [] (SFirst p)).
+  { split; [exact Hp2|]. split; [exact Hc2|]. left. auto. }
+  specialize (Hls Hpre).
+  destruct (last_slot fuel (SFirst p) h2) as [s h2'| |]; [|contradiction|exact I].
+  destruct Hls as [Eh Hs]. subst h2'. cbn in Hs.
+  destruct (slot_at_val h2 p cp2 (l1 ++ l3) [] s Hp2) as [v [Hv Hcv]]; [rewrite app_nil_r; exact Hc2|exact Hs|].
+  unfold bind at 1. rewrite (write_slot_run h2 s (Some w) v Hv).
+  set (h3 := slot_upd h2 s (Some w)).
+  assert (Hc2' : chain h2 (w_first cp2) ((l1 ++ l3) ++ [])) by (rewrite app_nil_r; exact Hc2).
+  destruct (chain_seg_app h2 (l1 ++ l3) (w_first cp2) [] Hc2') as [e2 [Hseg2 _]].
+  assert (Hnd2 : NoDup (l1 ++ l3)) by (eapply chain_NoDup; eauto).
+  destruct (seg_slot_upd h2 p cp2 (l1 ++ l3) s e2 (Some w) Hp2 Hseg2 Hs Hnd2 Hpl) as [cp3 [Hp3 Hs3]]. fold h3 in Hp3, Hs3.
+  assert (Hown_w : slot_owner s <> w).
+  { destruct Hs as [[E1 E2]|[l0 [z [E1 E2]]]]; subst s; cbn; [congruence|].
+    intro Ez. subst z. apply Hnw. rewrite E1. apply in_or_app. right. left. reflexivity. }
+  assert (Hw3 : findw h3 w = Some (set_next cw None)) by (unfold h3; rewrite slot_upd_other; auto).
+  rewrite (upd_run h3 w _ _ Hw3).
+  set (h4 := upd_cell h3 w (fun c => set_next c None)).
+  assert (Hp4 : findw h4 p = Some cp3) by (unfold h4; rewrite findw_upd_cell_other; auto).
+  assert (Hw4 : findw h4 w = Some (set_next (set_next cw None) None)).
+  { unfold h4. rewrite findw_upd_cell_same. rewrite Hw3. reflexivity. }
+  assert (Hc4 : chain h4 (w_first cp3) ((l1 ++ l3) ++ [w])).
+  { eapply seg_chain_app.
+    - apply seg_upd_next_notin; eauto.
+    - econstructor; [exact Hw4|]. cbn. constructor. }
+  eapply (restack_finish D qh p (l1 ++ w :: l3) ((l1 ++ l3) ++ [w]) h0 h4 cp); eauto.
+  - eapply relinked_trans; [exact RL2|].
+    eapply relinked_trans; [apply (relinked_slot_upd p _ (l1 ++ l3) s h2 (Some w) Hs Hsub)|].
+    apply relinked_set_next. apply in_or_app. right. left. reflexivity.
+  - intro k. split; intro Hin.
+    + apply in_app_or in Hin. destruct Hin as [Hin|[Ek|[]]]; [apply Hsub; exact Hin|subst k; apply in_or_app; right; left; reflexivity].
+    + apply in_app_or in Hin. apply in_or_app. destruct Hin as [Hin|[Ek|Hin]].
+      * left. apply in_or_app. left. exact Hin.
+      * right. left. exact Ek.
+      * left. apply in_or_app. right. exact Hin.
+Qed.
